@@ -248,6 +248,9 @@ func (r *run) c16router(budget int) {
 				ds = append(ds, f)
 			}
 		}
+		if len(ds) == 0 {
+			continue
+		}
 		var hexes, want []string
 		stopped := false
 		for _, d := range ds {
